@@ -928,7 +928,7 @@ Fixpoint monitor_all_from (T : Z) (script : list (Z * origin_reply * origin_repl
         (bs "C03", mon_C03 script past q o); (bs "C04", mon_C04 script past q o);
         (bs "C05", mon_C05 script past o); (bs "C06", mon_C06 script q o);
         (bs "C07", mon_C07 script past q o); (bs "C08", mon_C08 script past q o);
-        (bs "C09", mon_C09 script past q o); (bs "C10", mon_C10 o); (bs "C11", vand (mon_C11 script past o) (age_inputs script past o));
+        (bs "C09", vand (mon_C09 script past q o) (age_inputs script past o)); (bs "C10", mon_C10 o); (bs "C11", vand (mon_C11 script past o) (age_inputs script past o));
         (bs "C13", vand (mon_C13 script past q o) (age_inputs script past o)); (bs "C18", mon_C18 script prefix q o);
         (bs "C19", mon_C19 past q o); (bs "C20", mon_C20 T script prefix q o)])
       :: monitor_all_from T script (past ++ [(q, o)]) r
